@@ -8,13 +8,14 @@ nBytes of each decoded block = size in the jump table = bytes consumed = distanc
 next block."""
 import io
 
-from .. import core, env, shape, specs
+from .. import core, editwalk, env, shape, specs
 from .. import tdfref as R
 
 PROP = "C02"
 RULE = ("states = distinct builder states incl. every prefix of the item list (one builder transition per item); "
         "oracle per state: nBytes == len(written) == reader position before an 0xEE sentinel; per transition: "
         "growth == item.nBytes; plus the 8 capture blocks; non-trivial = >=2 items or a gap / None cell")
+RULE = RULE + editwalk.RULE_SUFFIX
 ASSUMPTIONS = [
     "items are observed through public iteration and their public nBytes attribute",
     "alphabets and frame-count bounds as in C01",
@@ -147,10 +148,14 @@ def _shard(shard):
 
 def run(tier):
     _shard.tier = tier
-    return core.pmap(__name__, "_shard", ["capture"] + shape.shards())
+    acc = core.pmap(__name__, "_shard", ["capture"] + shape.shards())
+    acc.merge(core.pmap("mc.editwalk", "run_shard", editwalk.shards(PROP, tier)))
+    return acc
 
 
 def replay(w):
+    if w.get("editwalk"):
+        return editwalk.replay(w)
     if "capture_block" in w:
         acc = capture_shard(None)
         for v in acc.violations:
